@@ -496,8 +496,12 @@ def align_variable_names_with_convention(
                 renamings[node].add(substitute)
                 for refnode in _get_uses_of(node, partial_tree, source):
                     renamings[refnode].add(substitute)
+            argument_names = {arg.arg for arg in core.walk(partial_tree.args, ast.arg)}
             for node in parsing.iter_assignments(partial_tree):
                 name = node.id
+                if name in argument_names:
+                    # Arguments are not renamed, so neither are assignments to them
+                    continue
                 substitute = style.rename_variable(name, private=False, static=False)
                 renamings[node].add(substitute)
                 for refnode in _get_uses_of(node, partial_tree, source):
